@@ -115,6 +115,7 @@ def snapshot(root):
                 "parent": _strip(b.get_parent(), root),
                 "config": [(k, st_.get(k)) for k in KEYS],
                 "locked": b.get_physical_lock_status(),
+                "shared-repo": repo.is_shared(),
                 "stacked": _strip(stacked, root),
                 "parents": sorted((_s(k), [_s(p) for p in v]) for k, v in
                                   repo.get_parent_map(revs).items()),
@@ -655,10 +656,10 @@ def gen_case(draw, tier):
 def kinds(tier):
     return [
         Kind("remote-v3", run, strategy=gen_case(tier),
-             examples={"quick": 100, "thorough": 3400},
+             examples={"quick": 160, "thorough": 3400},
              setup=_setup("SmartTCPServer_for_testing"), teardown=teardown),
         Kind("remote-v2", run, strategy=gen_case(tier),
-             examples={"quick": 24, "thorough": 600},
+             examples={"quick": 40, "thorough": 600},
              setup=_setup("SmartTCPServer_for_testing_v2_only"),
              teardown=teardown),
     ]
